@@ -52,28 +52,44 @@ class K(Base):
         return x
     {m}
     @classmethod
+    {f}
     def cm(cls, x: {h2}) -> {h1}:
         return x
     {m}
     @staticmethod
+    {f}
     def sm(x: {h1}, y: {h2} = None) -> {h1}:
         return x
     {m}
     @property
+    {f}
     def prop(self) -> {h2}:
         return self._v
     {ms}
     @prop.setter
+    {f}
     def prop(self, v: {h2}) -> None:
         self._v = v
     {m}
     @property
+    {f}
     def loose(self):
         return self._w
     {ms}
     @loose.setter
+    {f}
     def loose(self, v: {h1}):
         self._w = v
+    {m}
+    @property
+    {f}
+    def gone(self):
+        return self._g
+    {ms}
+    @gone.deleter
+    {f}
+    def gone(self) -> {h2}:
+        return self._g
     def unannotated(self, x):
         return x
     {nesteddec}
@@ -81,6 +97,16 @@ class K(Base):
         {m}
         def inner(self, x: {h2}) -> {h1}:
             return x
+        {m}
+        @property
+        {f}
+        def nloose(self):
+            return None
+        {ms}
+        @nloose.setter
+        {f}
+        def nloose(self, v: {h2}):
+            pass
 
 {classdec}
 @dataclass
@@ -92,14 +118,18 @@ class DC:
 '''
 
 MEMBERS = ['plain', 'cm', 'sm', 'prop', 'prop', 'inner', 'meth']
-HAS_SELF = {'plain': True, 'cm': True, 'sm': False, 'prop': True, 'loose': True, 'inner': True, 'meth': True}
+HAS_SELF = {'plain': True, 'cm': True, 'sm': False, 'prop': True, 'loose': True, 'gone': True, 'inner': True, 'nloose': True, 'meth': True}
 
 
 def source(h1, h2, confkw, route):
     """route 'class': @D on the classes; route 'members': @D on every member the class defines."""
     if route == 'class':
-        return HEADER.format(confkw=confkw) + BODY.format(h1=h1, h2=h2, classdec='@D', m='', ms='', nesteddec='')
-    return HEADER.format(confkw=confkw) + BODY.format(h1=h1, h2=h2, classdec='', m='@D', ms='@D', nesteddec='')
+        return HEADER.format(confkw=confkw) + BODY.format(h1=h1, h2=h2, classdec='@D', m='', ms='', f='', nesteddec='')
+    if route == 'functions':
+        # @D directly on the plain functions underneath the descriptors (and on plain methods)
+        body = BODY.replace('    {m}\n    def ', '    @D\n    def ').replace('        {m}\n        def ', '        @D\n        def ')
+        return HEADER.format(confkw=confkw) + body.format(h1=h1, h2=h2, classdec='', m='', ms='', f='@D', nesteddec='')
+    return HEADER.format(confkw=confkw) + BODY.format(h1=h1, h2=h2, classdec='', m='@D', ms='@D', f='', nesteddec='')
 
 
 def cases(tier, seed):
@@ -134,51 +164,54 @@ def run_case(prop, name, spec, confkw, tier, src):
     try:
         h1, h2 = spec['h1'], spec['h2']
         nsA, recA = load(source(h1, h2, confkw, 'class'))
-        nsB, recB = load(source(h1, h2, confkw, 'members'))
-        A, B = by_name(recA), by_name(recB)
-        problems = concrete_side_conditions(nsA, nsB, A, B)
-        out.side = {'checked': 14, 'problems': problems}
-        out.obligations += 1
-        if problems:
-            out.findings.append({'kind': 'c13_side', 'program': 'decoration', 'label': '; '.join(problems)[:400],
-                                 'replay': write_replay('C13', {'property': 'C13', 'kind': 'c13', 'hint': dict(src), 'confkw': confkw,
-                                                               'program': 'side'}),
-                                 'detail': '; '.join(problems)[:600], 'hint': name, 'confkw': confkw})
-        else:
-            out.discharged += 1
+        A = by_name(recA)
         anynode = refsem.Node('any')
-        for mname in ('plain', 'cm', 'sm', 'prop', 'loose', 'inner', 'meth'):
-            ra, rb = A.get(mname, []), B.get(mname, [])
-            if len(ra) != len(rb):
-                out.findings.append({'kind': 'c13_side', 'program': mname,
-                                     'label': f'{len(ra)} wrapper(s) for {mname} when decorating the class, {len(rb)} when decorating the member',
-                                     'replay': write_replay('C13', {'property': 'C13', 'kind': 'c13', 'hint': dict(src), 'confkw': confkw, 'program': 'side'}),
-                                     'detail': 'wrapper counts differ', 'hint': name, 'confkw': confkw})
-                continue
-            for k, (wa, wb) in enumerate(zip(ra, rb)):
-                ga, gb = Generated(), Generated()
-                for g, w in ((ga, wa), (gb, wb)):
-                    g.hint, g.confkw, g.wrapper = None, confkw, w
-                first = Encoding(ga, 3, node=anynode)
-                lead = ()
-                if HAS_SELF[mname]:
-                    selfobj = first.U.obj('selfobj')
-                    first = Encoding(ga, 3, node=anynode, share=first, leading=(selfobj,))
-                    lead = (selfobj,)
-                second = Encoding(gb, None, node=anynode, share=first, leading=lead)
-                first.assume.extend(second.assume)
-                for r in second.results.values():
-                    first.results[id(r)] = r
-                d = Discharger(first)
-                for prog in ('param', 'return'):
-                    pre = [first.guards['param'], second.guards['param']] if prog == 'return' else []
-                    oblige(out, d, first, 'C13', f'{mname}[{k}]: {prog} guard differs between class decoration and member decoration',
-                           pre + [z3.Xor(first.guards[prog], second.guards[prog])], ('c13', prog),
-                           dict(src, member=mname, index=k), extra={'confkw': confkw})
-                out.queries += d.stats['queries']
-                out.solver_s += d.stats['solver_s']
+        for route in ('members', 'functions'):
+            nsB, recB = load(source(h1, h2, confkw, route))
+            B = by_name(recB)
+            problems = concrete_side_conditions(nsA, nsB, A, B, route)
+            out.side = {'checked': 14, 'problems': problems}
+            out.obligations += 1
+            if problems:
+                out.findings.append({'kind': 'c13_side', 'program': 'decoration', 'label': '; '.join(problems)[:400],
+                                     'replay': write_replay('C13', {'property': 'C13', 'kind': 'c13', 'hint': dict(src, route=route), 'confkw': confkw,
+                                                                   'program': 'side'}),
+                                     'detail': '; '.join(problems)[:600], 'hint': name, 'confkw': confkw})
+            else:
+                out.discharged += 1
+            for mname in ('plain', 'cm', 'sm', 'prop', 'loose', 'gone', 'inner', 'nloose', 'meth'):
+                ra, rb = A.get(mname, []), B.get(mname, [])
+                if len(ra) != len(rb):
+                    out.findings.append({'kind': 'c13_side', 'program': mname,
+                                         'label': f'{len(ra)} wrapper(s) for {mname} when decorating the class, {len(rb)} when decorating the {route}',
+                                         'replay': write_replay('C13', {'property': 'C13', 'kind': 'c13', 'hint': dict(src, route=route), 'confkw': confkw, 'program': 'side'}),
+                                         'detail': 'wrapper counts differ', 'hint': name, 'confkw': confkw})
+                    continue
+                for k, (wa, wb) in enumerate(zip(ra, rb)):
+                    ga, gb = Generated(), Generated()
+                    for g, w in ((ga, wa), (gb, wb)):
+                        g.hint, g.confkw, g.wrapper = None, confkw, w
+                    first = Encoding(ga, 3, node=anynode)
+                    lead = ()
+                    if HAS_SELF[mname]:
+                        selfobj = first.U.obj('selfobj')
+                        first = Encoding(ga, 3, node=anynode, share=first, leading=(selfobj,))
+                        lead = (selfobj,)
+                    second = Encoding(gb, None, node=anynode, share=first, leading=lead)
+                    first.assume.extend(second.assume)
+                    for r in second.results.values():
+                        first.results[id(r)] = r
+                    d = Discharger(first)
+                    for prog in ('param', 'return'):
+                        pre = [first.guards['param'], second.guards['param']] if prog == 'return' else []
+                        oblige(out, d, first, 'C13', f'{mname}[{k}]: {prog} guard differs between class decoration and decoration of the {route}',
+                               pre + [z3.Xor(first.guards[prog], second.guards[prog])], ('c13', prog),
+                               dict(src, member=mname, index=k, route=route), extra={'confkw': confkw})
+                    out.queries += d.stats['queries']
+                    out.solver_s += d.stats['solver_s']
         out.nontrivial = True
-        out.sample = {'class_hints': [h1, h2], 'conf': confkw, 'members_compared': ['plain', 'cm', 'sm', 'prop getter', 'prop setter', 'Nested.inner', 'DC.meth'],
+        out.sample = {'class_hints': [h1, h2], 'conf': confkw, 'members_compared': ['plain', 'cm', 'sm', 'prop getter', 'prop setter', 'loose setter (unannotated getter)', 'gone deleter (unannotated getter)', 'Nested.inner', 'Nested.nloose setter', 'DC.meth'],
+                      'routes_compared_with_class_decoration': ['@D on each member (descriptor level)', '@D on each plain function underneath its descriptor'],
                       'obligation': 'unsat(guard_classroute(x,r) xor guard_memberroute(x,r)) for parameter and return of every member'}
     except Unsupported as e:
         out.inconclusive.append(f'unsupported: {e}')
@@ -188,7 +221,7 @@ def run_case(prop, name, spec, confkw, tier, src):
     return out
 
 
-def concrete_side_conditions(nsA, nsB, A, B):
+def concrete_side_conditions(nsA, nsB, A, B, routeB='members'):
     """Observations on the real objects; returns a list of problems (empty = all hold)."""
     from beartype import beartype, BeartypeConf, BeartypeStrategy
     import typing
@@ -203,7 +236,7 @@ def concrete_side_conditions(nsA, nsB, A, B):
         if D(f) is not f:
             P.append(f'decorating the existing wrapper of {nm} again returns a different object')
     # descriptor kinds
-    for ns, route in ((nsA, 'class'), (nsB, 'members')):
+    for ns, route in ((nsA, 'class'), (nsB, routeB)):
         k = ns['K']
         kinds = {'cm': classmethod, 'sm': staticmethod, 'prop': property}
         for nm, t in kinds.items():
@@ -247,9 +280,14 @@ def replay_c13(p):
     src = p['hint']
     confkw = p.get('confkw', {})
     nsA, rA = load(source(src['h1'], src['h2'], confkw, 'class'))
-    nsB, rB = load(source(src['h1'], src['h2'], confkw, 'members'))
+    nsB, rB = load(source(src['h1'], src['h2'], confkw, src.get('route', 'members')))
     if p.get('program') == 'side':
-        probs = concrete_side_conditions(nsA, nsB, by_name(rA), by_name(rB))
+        probs = concrete_side_conditions(nsA, nsB, by_name(rA), by_name(rB), src.get('route', 'members'))
+        A, B = by_name(rA), by_name(rB)
+        for mname in ('plain', 'cm', 'sm', 'prop', 'loose', 'gone', 'inner', 'nloose', 'meth'):
+            if len(A.get(mname, [])) != len(B.get(mname, [])):
+                probs.append(f'{len(A.get(mname, []))} checking wrapper(s) generated for {mname} when decorating the class, '
+                             f'{len(B.get(mname, []))} when decorating the {src.get("route", "members")}')
         return bool(probs), '; '.join(probs) or 'all side conditions hold'
     m = src['member']
 
@@ -272,6 +310,11 @@ def replay_c13(p):
                     ns['DC'].meth(object.__new__(ns['DC']), obj)
                 elif m == 'loose':
                     inst.loose = obj
+                elif m == 'nloose':
+                    K.Nested().nloose = obj
+                elif m == 'gone':
+                    inst._g = obj
+                    del inst.gone
                 elif m == 'prop':
                     if src.get('index', 0) == 0:
                         inst._v = obj
@@ -287,5 +330,5 @@ def replay_c13(p):
             PIN.value = None
     a, b = call(nsA), call(nsB)
     if a != b:
-        return True, f'{m}: class decoration {a}, member decoration {b}, object {universe.build(p["obj"])!r}, draw {p["draw"]}'
+        return True, f'{m}: class decoration {a}, {src.get("route", "members")} decoration {b}, object {universe.build(p["obj"])!r}, draw {p["draw"]}'
     return False, f'both {a}'
